@@ -1,6 +1,8 @@
 import PercevalModel.Proto
 import PercevalModel.Model.C08
 import PercevalModel.Model.C08Glue
+import PercevalModel.Model.C08Circ
+import PercevalModel.Lemmas.C08Fock
 import PercevalModel.Found.SM
 import Mathlib.Algebra.Order.Field.Rat
 
@@ -18,6 +20,11 @@ import Mathlib.Algebra.Order.Field.Rat
   * `{"op":"tail","m":m,"dist":[…],"dets":[…]|null,"minph":f|null,"minp":q,"heralds":[[k,v],…]}` — tail of
     `Simulator.probs_svd` on the theoretical distribution `dist`: whether the heralds mask is used, the
     herald-selected result (before the final normalize(), heralded modes kept) and `phys_perf`
+  * `{"op":"bscirc","L":l,"r":q,"c":[re,im]?,"s":[re,im]?,"n":n?}` — model of `BSLayeredPPNR.create_circuit()`:
+    the components it adds, the path weights `r^zeros (1-r)^ones` of the leaves (first-column moduli², every
+    rational `r`); with amplitudes `c`, `s` in ℚ[i] (`|c|² = r`, `|s|² = 1-r` checked, rejected otherwise) the
+    exact unitary of the circuit, and with `n` also the Fock-specification distribution
+    `|perm(U[t|n,0,…,0])|²/(n! ∏t!)` over all states `t` (Mathlib permanent) next to the leaf law `treeOcc`
   A detector is `null`, `{"w":w|null,"max":k|null}` or `{"bs":l,"r":q}`.
 -/
 
@@ -55,8 +62,48 @@ def parseDet (j : Json) : Except String (AnyDet ℚ) := do
 def parseDets (j : Json) : Except String (List (AnyDet ℚ)) := do
   (← j.getArr?).toList.mapM parseDet
 
+def compToJson : TComp → Json
+  | .perm σ => Json.arr #["PERM", toJson (0 : ℕ), toJson σ]
+  | .bs m => Json.arr #["BS", toJson m]
+
+def bscirc (j : Json) : Except String Json := do
+  let l ← natOf j "L"
+  let r ← ratOfJson (← j.getObjVal? "r")
+  let p ← mkBS l r
+  let L := p.1
+  if L > 3 then throw "depth too large for the driver"
+  let N := 2 ^ L
+  let comps := treeComps L
+  let weights := (List.range N).map fun k => ratToJson (leafP r (1 - r) L k)
+  let ones := (List.range N).map fun k => toJson (onesL L k)
+  let base : List (String × Json) :=
+    [("m", toJson N), ("comps", .arr (comps.map compToJson).toArray), ("weights", .arr weights.toArray),
+     ("ones", .arr ones.toArray)]
+  match j.getObjVal? "c", j.getObjVal? "s" with
+  | .ok cj, .ok sj =>
+    let c ← gqOfJson cj
+    let s ← gqOfJson sj
+    if GQ.normSq c ≠ r ∨ GQ.normSq s ≠ 1 - r then throw "amplitudes do not match the reflectivity"
+    let V := circuitV N c s comps
+    let U := V.toMatrix
+    let rows : Json := .arr ((List.finRange N).map fun i =>
+      Json.arr ((List.finRange N).map fun k => gqToJson (U i k)).toArray).toArray
+    let col0 : Json := .arr ((List.range N).map fun k => gqToJson (leafP c s L k)).toArray
+    let extra ← match natOf j "n" with
+      | .ok n =>
+        if n > 5 then throw "too many photons for the driver (permanent)"
+        let sts := Fock.allStates N n
+        let fock := sts.map fun t => Json.arr #[toJson t, ratToJson (Fock.prob U (single N n) t)]
+        let occ := sts.map fun t => Json.arr #[toJson t, ratToJson (prob (treeOcc r L n) t)]
+        pure [("fock", Json.arr fock.toArray), ("occ_at", Json.arr occ.toArray),
+              ("occ_len", toJson (treeOcc r L n).length)]
+      | .error _ => pure []
+    return Json.mkObj (base ++ [("U", rows), ("col0", col0)] ++ extra)
+  | _, _ => return Json.mkObj base
+
 def handleReq (j : Json) : Except String Json := do
   let op ← strOf j "op"
+  if op == "bscirc" then return ← bscirc j
   if op == "detect" then
     let w ← optNat j "wires"
     let mx ← optNat j "max"
